@@ -28,6 +28,7 @@ mod c28;
 mod c05;
 mod c08;
 mod c14;
+mod c14_fit;
 mod c09;
 mod c15;
 mod c15_worker;
